@@ -31,6 +31,7 @@ def cases(tier, seed):
             yield f"count/{nsrc}/{no}", {"kind": "count", "nsrc": nsrc, "no": no}
     for bad in ("not-rvdata", "covariance"):
         yield f"source/{bad}", {"kind": "source", "bad": bad}
+    yield "history/container-mutated-between-calls", {"kind": "history"}
     for what in ("ok", "pool-no-map", "pool-no-close", "rng-int", "rng-legacy", "prior-str"):
         yield f"joker/{what}", {"kind": "joker", "what": what}
 
@@ -114,6 +115,27 @@ def check(inp):
                     bad("JokerPrior.__init__", "parameter-order-nonlinear-linear-offsets", got=prior.par_names)
         elif accepted:
             bad("JokerPrior.__init__", f"defective-prior-must-raise[{inp['defect']}]", par=inp["par"])
+        return fails
+    if inp["kind"] == "history":
+        # one sampler, one list object: accepted with two sources and one offset prior; after a third source is appended to the SAME list the
+        # next call must refuse it (validation is per call, not per container)
+        import numpy as np
+        from astropy.time import Time
+        from thejoker import RVData
+        S.install_kernel()
+        prior = S.default_prior(n_offsets=1)
+        mk = lambda k: RVData(Time(55000.0 + 40.0 * k + np.arange(3) * 7.0, format="mjd", scale="tcb"), (np.arange(3) + 5.0 * k) * u.km / u.s,
+                              np.full(3, 0.5) * u.km / u.s)
+        surveys = [mk(0), mk(1)]
+        lib = prior.sample(size=4, rng=np.random.default_rng(2))
+        jk = TheJoker(prior, rng=np.random.default_rng(1))
+        jk.marginal_ln_likelihood(surveys, lib, in_memory=True)
+        surveys.append(mk(2))
+        try:
+            jk.marginal_ln_likelihood(surveys, lib, in_memory=True)
+            bad("TheJoker", "source-count-checked-on-every-call[call-history]", note="3 sources accepted with one offset prior after the list was extended in place")
+        except ValueError:
+            pass
         return fails
     if inp["kind"] == "count":
         from thejoker.data_helpers import validate_prepare_data
